@@ -81,6 +81,9 @@ for key, e in sorted(entries.items()):
         detected=bool(det), detected_by=sorted({c["check"] for c in det}),
         detection_kind=sorted(kinds),
         files=["patch.diff", "demo.py", "demo_output.txt", "notes.md"])
+    note = os.path.join(d, "ORIGIN_NOTE.txt")
+    if os.path.exists(note):
+        meta["origin"] += "; " + " ".join(open(note).read().split())
     with open(os.path.join(d, "meta.json"), "w") as fh:
         json.dump(meta, fh, indent=1)
     for junk in (".det",):
